@@ -20,7 +20,7 @@ BOUNDS = ('One query = one CELL: concrete child script (sequence of events: writ
           'blocking-descriptor cells: 3-byte payload, both pipes 1 byte, script r11ex, and 2-byte payload script e1x. '
           'cells.json lists for every script ALL positions (an event marked LATE stands for "this OS call or any later": the query proves that the parent forces the event by then, '
           'so later positions are the same run) and the complete tree of read/write amounts (completeness of the tree is checked when spec.py is loaded; the limits are asserted in the queries). '
-          'QUICK runs the complete lists of x, 1x, 2x (no payload), x+payload, and the deadline script x (every 2nd cell) and every n-th cell of the other lists (TIERS in spec.py); '
+          'QUICK runs the complete lists of x, 1x, 2x, cx (no payload), x+payload, and the deadline script x (every 2nd cell) and every n-th cell of the other lists (TIERS in spec.py); '
           'THOROUGH runs the complete lists of x, 1x, 2x, 11x, 3x, cx, the 1-byte-payload scripts x/kx/ex/rx, ex with 2 bytes (capacity 1), deadline x, and every n-th cell '
           '(n = 2..20, see TIERS) of 12x, 21x, 111x, 1cx and the remaining payload / deadline lists. '
           'run_process (h_run.c): stdout + stderr <= 2 bytes (scripts x, 1x, Ax, 2x, Bx, 11x, 1Ax, A1x, AAx), payload 1 byte (x, kx, ex, e1x) or 2 bytes (ex, capacity 1 and 2), every event '
@@ -67,7 +67,9 @@ def comm_unwindset(w, in_n, tmax, main_iters):
     nf = 2 if in_n else 1
     d = {'draw_clock.0': 14,
          DQ + 'D2Ev.0': 6, DQ + 'C2Ev.0': 6, LB + '3addEisE3__0EEET_SE_SE_RKT0_T1__c653dc.0': 3, LB + '6removeEibE3__1EEET_SE_SE_RKT0_T1__b9d0c1.0': 3,
-         COMM + '.0': main_iters, COMM + '.1': w + 3, COMM + '.2': w + 2,
+         # the three loops of communicate (main, drain, concatenation) all get the bound of the main loop: their numbering follows the
+         # block layout clang chooses and changes when the code changes (seeded mutant m2: main loop became .2)
+         COMM + '.0': main_iters, COMM + '.1': main_iters, COMM + '.2': main_iters,
          '_ZNKSt13unordered_mapIisvvvE4findERKi.0': 5, UM + '7emplaceIJRKiEJRKsEEESt4pairINS0_8iteratorEbESt21piecewise_construct_tSt5tupleIJDpT_EESA_IJDpT0_EE.0': 5,
          UM + '5clearEv.0': 5, UM + 'C2Ev.0': 5, UM + 'C2EOS0_.0': 5,
          'verif_memset_loop.0': 6, 'verif_memcpy_loop.0': 20, '_ZN5phosg10Subprocess4waitEb.0': 2, '_ZN5phosg4Poll4pollEi.0': nf + 1,
@@ -115,7 +117,8 @@ def RQ(name, evs, sched, in_n=0, has_in=None, cap=None, check=0, status0=1, plan
         defs['CAP'] = cap
     if kf:
         defs[kf] = 1
-    us = {RUNP + '.0': tmax // 2 + 3, 'verif_memcpy_loop.0': 20, 'verif_memmove_loop.0': 18, 'verif_memmove_loop.1': 18, 'strlen.0': 20, '_ZN5phosg10Subprocess4waitEb.0': 2}
+    us = {RUNP + '.0': tmax // 2 + 3, RUNP + '.1': tmax // 2 + 3, RUNP + '.2': tmax // 2 + 3, RUNP + '.3': tmax // 2 + 3, RUNP + '.4': tmax // 2 + 3, RUNP + '.5': tmax // 2 + 3,  # loop numbering follows clang's block layout
+          'verif_memcpy_loop.0': 20, 'verif_memmove_loop.0': 18, 'verif_memmove_loop.1': 18, 'strlen.0': 20, '_ZN5phosg10Subprocess4waitEb.0': 2}
     return dict(name=name, unit='proc', harness='h_run.c', defs=defs, unwind=9, unwindset=','.join('%s:%d' % kv for kv in us.items()), timeout=to, mem_gb=mem_gb,
                 flags=FS512, backend='cadical', object_bits=12, tv=tv, tv_runs=20, cost=20,
                 desc='run_process (real Subprocess constructor, poll loop, drain, check=%d) vs OS model: child script %s (1-9 stdout bytes, A-C 1-3 stderr bytes, r/e/k stdin, x exit), %s, wait status %s; '
@@ -157,7 +160,7 @@ for _r in CELLS:
 TIERS = {
     # stdout only, no payload, no deadline
     ('x', 0, 1, 0): (1, 1), ('1x', 0, 1, 0): (1, 1), ('2x', 0, 1, 0): (1, 1), ('11x', 0, 1, 0): (6, 1), ('3x', 0, 1, 0): (8, 1),
-    ('12x', 0, 1, 0): (32, 4), ('21x', 0, 1, 0): (45, 4), ('111x', 0, 1, 0): (0, 24), ('cx', 0, 1, 0): (3, 1), ('1cx', 0, 1, 0): (0, 2),
+    ('12x', 0, 1, 0): (32, 4), ('21x', 0, 1, 0): (45, 4), ('111x', 0, 1, 0): (0, 24), ('cx', 0, 1, 0): (1, 1), ('1cx', 0, 1, 0): (0, 2),
     # stdin payload of 1 / 2 bytes
     ('x', 1, 1, 0): (1, 1), ('kx', 1, 1, 0): (5, 1), ('ex', 1, 1, 0): (3, 1), ('rx', 1, 1, 0): (0, 1), ('e1x', 1, 1, 0): (16, 2), ('1ex', 1, 1, 0): (0, 4),
     ('r1x', 1, 1, 0): (0, 4), ('ex', 2, 1, 0): (9, 1), ('ex', 2, 2, 0): (0, 2), ('rx', 2, 2, 0): (28, 3), ('rex', 2, 1, 0): (0, 3), ('rrx', 2, 1, 0): (0, 6),
